@@ -117,6 +117,13 @@ RowChoice(M, t, Vn, row, tol) ==
              \* speak of, and what the code reports there -- feasible or not -- is outside the property
              IF best = OOS THEN "SKIP:transition-into-excluded-state"
              ELSE IF IsNaN(best) THEN "SKIP:ill-defined-arithmetic"
+             \* known finding D18 (known_findings.json): every feasible choice has objective -inf (each leads to a state
+             \* without feasible choice), the code reports value -inf and the FIRST grid combination, which need not be
+             \* feasible.  Exactly that pattern is set aside; a wrong value or any other clause is still judged.
+             ELSE IF best = NegInf /\ row.value = NegInf
+                     /\ ((\E n \in ChoiceNames(M) : ~IsOnGrid(VarRec(M, n), row.choice[n]))
+                         \/ ~PassAll(M, "filter", env) \/ ~PassAll(M, "constraint", env))
+                THEN "SKIP:D18-infeasible-choice-reported-where-the-feasible-maximum-is-minus-infinity"
              ELSE IF \E n \in ChoiceNames(M) : ~IsOnGrid(VarRec(M, n), row.choice[n]) THEN "choice-off-grid"
              ELSE IF ~PassAll(M, "filter", env) THEN "filter"
              ELSE IF ~PassAll(M, "constraint", env) THEN "constraint"
